@@ -119,7 +119,7 @@ func (sf *storeFlusher) Commit() (err error) {
 		}
 	}()
 	if builder != nil {
-		if builder.Size() > 0 {
+		if builder.Count() > 0 {
 			err = builder.Close()
 			if err != nil {
 				return fmt.Errorf("close table builder error when flush commit, error:%s", err)
